@@ -147,6 +147,29 @@ Definition pt_dim_to_dense (dim : nat) (next : positive) (t : ptensor) : res (pt
                 Pos.succ k)
   end.
 
+(** * [__iter__]: [dim_to_dense(0)], then one tensor per index of the leading dimension.
+    Leading axis physical: the slices [self.physical.permute((i, ...))[j]] over the remaining physical axes;
+    leading axis [unitAxis]: ONE tensor with the same storage, physical axes and default (the default is kept). *)
+Fixpoint pindex (k : positive) (ps : list pn) : option nat :=
+  match ps with
+  | [] => None
+  | (k', _) :: ps' => if Pos.eqb k' k then Some 0 else option_map S (pindex k ps')
+  end.
+
+Definition pt_iter (next : positive) (t : ptensor) : res (list ptensor) :=
+  r <- pt_dim_to_dense 0 next t ;;                        (* a 0-dim tensor: [vaxes.pop(0)] raises IndexError *)
+  let t' := fst r in
+  match vaxes t' with
+  | [] => Fail IndexError
+  | Phys k n :: vs =>
+      match pindex k (paxes t') with
+      | None => Fail OtherError                            (* [paxes.index(k)]: ValueError *)
+      | Some i => Ok (map (fun j => mkPT (fun idx => physical t' (insert_nth i j idx)) (remove_nth i (paxes t')) vs (default t'))
+                          (seq 0 n))
+      end
+  | e :: vs => if is_unit e then Ok [mkPT (physical t') (paxes t') vs (default t')] else Fail OtherError   (* assert *)
+  end.
+
 (** * the method [project(paxes, vaxes)]: a dense tensor over [paxes] *)
 Definition pt_project (pax : list pn) (vax : list axis) (next : positive) (t : ptensor)
   : res (list nat * (nat -> V)) :=
